@@ -222,9 +222,50 @@ func registerLife(prop, title string) {
 					}
 				}
 			}
+			if prop == "C03" || prop == "C02" {
+				// groups whose members have different lifetimes, in every registration order of
+				// {transient, scoped, singleton}: the group is requested repeatedly in one scope
+				for oi, order := range [][]string{{"transient", "scoped", "singleton"}, {"scoped", "transient", "singleton"}, {"singleton", "scoped", "transient"}, {"transient", "singleton", "scoped"}, {"scoped", "singleton", "transient"}, {"singleton", "transient", "scoped"}} {
+					spec := kit.Spec{Regs: []kit.Reg{{ID: 0, Life: "singleton", Outs: []kit.Out{{T: "D0"}}}}}
+					for i, l := range order {
+						spec.Regs = append(spec.Regs, kit.Reg{ID: 1 + i, Life: l, Outs: []kit.Out{{T: "D2"}}, Group: "m", Deps: []kit.Dep{{T: "D0"}}})
+					}
+					spec.Regs = append(spec.Regs, kit.Reg{ID: 4, Life: "scoped", In: true, Outs: []kit.Out{{T: "P3"}}, Deps: []kit.Dep{{T: "D2", Group: "m"}}})
+					m := NewModel(&spec)
+					jobs = append(jobs, (&histCfg{Name: fmt.Sprintf("%s-hist/mixed-group-%d", prop, oi), Spec: spec,
+						Probes: []Op{{Kind: "group", T: "D2", Group: "m"}, {Kind: "get", T: "P3"}}, MaxScopes: 2, Depth: depth4(tier),
+						Final:  []Op{{Kind: "close", Scope: ""}, {Kind: "settle"}},
+						Oracle: func(e *Env, s *vsched.Sched, h []Op) []Finding { return filterClauses(prop, lifeOracle(e, m)) }}).jobs()...)
+				}
+			}
 			pb := 2
 			if tier == "thorough" {
 				pb = 3
+			}
+			if prop == "C02" {
+				// ONE scoped registration behind two interface aliases, resolved concurrently through different aliases
+				aspec := kit.Spec{Regs: []kit.Reg{
+					{ID: 0, Life: "scoped", Outs: []kit.Out{{T: "D0"}}, As: []string{"IA", "IB"}},
+					{ID: 1, Life: "scoped", Outs: []kit.Out{{T: "P0"}}, Deps: []kit.Dep{{T: "IA"}}},
+					{ID: 2, Life: "scoped", In: true, Outs: []kit.Out{{T: "P1"}}, Deps: []kit.Dep{{T: "IB"}}},
+					{ID: 3, Life: "scoped", Outs: []kit.Out{{T: "D1"}}, As: []string{"IA", "IB"}, Name: "k"},
+				}}
+				am := NewModel(&aspec)
+				mk := func(name string, threads ...[]Op) *Scenario {
+					return &Scenario{Name: "C02-conc/aliases-" + name, Spec: aspec, Setup: []Op{{Kind: "scope", Bind: "s1"}}, Threads: threads,
+						Final: []Op{{Kind: "settle"}, {Kind: "close", Scope: ""}, {Kind: "settle"}}}
+				}
+				for _, sc := range []*Scenario{
+					mk("direct", []Op{{Kind: "get", Scope: "s1", T: "IA"}}, []Op{{Kind: "get", Scope: "s1", T: "IB"}}),
+					mk("keyed", []Op{{Kind: "get", Scope: "s1", T: "IA", Key: "k"}}, []Op{{Kind: "get", Scope: "s1", T: "IB", Key: "k"}}),
+					mk("dependents", []Op{{Kind: "get", Scope: "s1", T: "P0"}}, []Op{{Kind: "get", Scope: "s1", T: "P1"}}),
+					mk("direct+dependent", []Op{{Kind: "get", Scope: "s1", T: "IB"}}, []Op{{Kind: "get", Scope: "s1", T: "P0"}}),
+				} {
+					sc := sc
+					jobs = append(jobs, mc.Job{Name: sc.Name, Weight: 40, Run: func(r *mc.Report) {
+						exploreScenario(r, sc, mc.Bounds{Preempt: pb}, func(e *Env, s *vsched.Sched) []Finding { return filterClauses(prop, lifeOracle(e, am)) })
+					}})
+				}
 			}
 			spec := lifeSpec()
 			m := NewModel(&spec)
